@@ -452,6 +452,7 @@ def _color_refine(
     generator: Callable,
     max_iter: int | None = None,
     atom_labels: None | np.ndarray[tuple[int], np.dtype[np.int64]] = None,
+    min_iter: int = 1,
 ) -> np.ndarray[tuple[int], np.dtype[np.int64]]:
     sm_generator = generator(graph, atom_labels=atom_labels)
 
@@ -463,11 +464,6 @@ def _color_refine(
     counter = (
         itertools.count(1, 1) if max_iter is None else range(max_iter + 1)
     )
-    # bond stereo enters the colors with a delay of one round
-    # (it is hashed from the colors of the previous round)
-    min_iter = 2 if (getattr(graph, "bond_stereo", None)
-                     or getattr(graph, "bond_stereo_changes", None)) else 1
-
     for i in counter:
         atom_hash = next(sm_generator)
         new_n_classes = np.unique(atom_hash).shape[0]
@@ -501,11 +497,14 @@ def color_refine_smg(
     max_iter: int | None = None,
     atom_labels: None | np.ndarray[tuple[int], np.dtype[np.int64]] = None,
 ) -> np.ndarray[tuple[int], np.dtype[np.int64]]:
+    # bond stereo enters the colors with a delay of one round
+    # (it is hashed from the colors of the previous round)
     return _color_refine(
         graph=graph,
         generator=stereo_morgan_generator,
         max_iter=max_iter,
         atom_labels=atom_labels,
+        min_iter=2 if graph.bond_stereo else 1,
     )
 
 
@@ -526,11 +525,15 @@ def color_refine_scrg(
     max_iter: int | None = None,
     atom_labels: None | np.ndarray[tuple[int], np.dtype[np.int64]] = None,
 ) -> np.ndarray[tuple[int], np.dtype[np.int64]]:
+    # bond stereo enters the colors with a delay of one round
+    # (it is hashed from the colors of the previous round)
     return _color_refine(
         graph=graph,
         generator=stereo_reaction_morgan_generator,
         max_iter=max_iter,
         atom_labels=atom_labels,
+        min_iter=(2 if graph.bond_stereo or graph.bond_stereo_changes
+                  else 1),
     )
 
 
